@@ -4,6 +4,9 @@ package ratelimiter
 
 import (
 	"context"
+	"fmt"
+	"sync"
+	"sync/atomic"
 	"time"
 )
 
@@ -93,3 +96,60 @@ func (m *VerifManager) Hosts() map[string]int {
 	return out
 }
 func (m *VerifManager) Close() { m.bm.Close() }
+
+// VerifFirstContact: `workers` goroutines contact each of `hosts` brand-new hosts at the same moment,
+// while the manager's lock is contended (it is taken for a few milliseconds at a time, as a cleanup
+// sweep or an LFU scan would), so that the arrivals queue on it. Capacity 1 and a negligible rate:
+// per host at most one request may be released.
+func VerifFirstContact(hosts, workers int) string {
+	bm := NewBucketManager(context.Background(), 10*hosts+10, 1, 0.001, time.Hour)
+	defer bm.Close()
+	released := make([]atomic.Int64, hosts)
+	start := make(chan struct{})
+	var ready, wg sync.WaitGroup
+	for h := 0; h < hosts; h++ {
+		host := fmt.Sprintf("new-%d.example", h)
+		for w := 0; w < workers; w++ {
+			ready.Add(1)
+			wg.Add(1)
+			go func(h int, host string) {
+				defer wg.Done()
+				ready.Done()
+				<-start
+				mb := bm.getBucket(host)
+				// one iteration of Wait(): refill, take a token if there is one
+				mb.bucket.mu.Lock()
+				mb.bucket.refill()
+				if mb.bucket.tokens >= 1 {
+					mb.bucket.tokens--
+					released[h].Add(1)
+				}
+				mb.bucket.mu.Unlock()
+			}(h, host)
+		}
+	}
+	ready.Wait()
+	bm.mu.Lock()
+	close(start)
+	time.Sleep(20 * time.Millisecond)
+	for i := 0; i < 10; i++ {
+		bm.mu.Unlock()
+		bm.mu.Lock()
+		time.Sleep(2 * time.Millisecond)
+	}
+	bm.mu.Unlock()
+	wg.Wait()
+	bad, worst := 0, int64(0)
+	for h := range released {
+		if n := released[h].Load(); n > 1 {
+			bad++
+			if n > worst {
+				worst = n
+			}
+		}
+	}
+	if bad > 0 {
+		return fmt.Sprintf("bad %d of %d new hosts released more than capacity=1 at once (worst %d, %d workers each)", bad, hosts, worst, workers)
+	}
+	return "ok"
+}
